@@ -74,15 +74,15 @@ def falsified(text, flags, rec=None):
             # D8: negated chain
             if lit.atom.ast_type == ASTType.Comparison and lit.sign != Sign.NoSign and len(lit.atom.guards) >= 2:
                 keys.add("Hyp_no_neg_chain")
-            # D5: non-unit coefficients / non-linear arithmetic next to math
-            if "math" in on and lit.atom.ast_type == ASTType.Comparison:
-                for n in walk(lit.atom):
-                    if n.ast_type == ASTType.BinaryOperation and n.operator_type in (
-                            BinaryOperator.Multiplication, BinaryOperator.Division, BinaryOperator.Modulo, BinaryOperator.Power):
-                        if variables(n):
-                            keys.add("Hyp_unit_coeff")
-                    if n.ast_type == ASTType.UnaryOperation and n.operator_type == UnaryOperator.Absolute:
+        # D5: non-unit coefficients / non-linear arithmetic next to math (in comparisons or ex-lined atom arguments)
+        if "math" in on:
+            for n in walk(stm):
+                if n.ast_type == ASTType.BinaryOperation and n.operator_type in (
+                        BinaryOperator.Multiplication, BinaryOperator.Division, BinaryOperator.Modulo, BinaryOperator.Power):
+                    if variables(n):
                         keys.add("Hyp_unit_coeff")
+                if n.ast_type == ASTType.UnaryOperation and n.operator_type == UnaryOperator.Absolute:
+                    keys.add("Hyp_unit_coeff")
         # pools / classical negation
         for sg, sym in astspec.sym_atoms(stm):
             if sym.ast_type == ASTType.Pool:
@@ -186,11 +186,23 @@ def falsified(text, flags, rec=None):
                 lines.setdefault(stm.location.begin.line, set()).add(str(stm))
     if any(len(v) > 1 for v in lines.values()):
         keys.add("Hyp_one_agg_per_line")
-    # D1 (instance dependent): the source derives a #inf/#sup result that the translation loses
-    if rec is not None and "minmax_chains" in on:
+    # D1 (instance dependent): some translated #min/#max faces an empty candidate domain on the failing instance
+    if rec is not None and "minmax_chains" in on and rec.get("result"):
         blob = str(rec.get("source_models")) + str(rec.get("result_models"))
         if "#inf" in blob or "#sup" in blob:
             keys.add("Hyp_nonempty_dom")
+        doms = set(re.findall(r"\b(__dom___(?:max|min)_\w+?)\(", rec["result"]))
+        if doms:
+            try:
+                import clingo
+                ctl = clingo.Control(["--warn=none"], logger=lambda c, m: None)
+                ctl.add("base", [], rec["result"] + "\n" + (rec.get("instance") or ""))
+                ctl.ground([("base", [])])
+                present = set(a.symbol.name for a in ctl.symbolic_atoms)
+                if any(d not in present for d in doms):
+                    keys.add("Hyp_nonempty_dom")
+            except RuntimeError:
+                pass
     # D6: a generated domain rule copies a negative literal over a non-static predicate
     if rec is not None and rec.get("result"):
         for line in rec["result"].split("\n"):
